@@ -5,6 +5,9 @@
 package c19
 
 import (
+	"encoding/json"
+	"os"
+
 	"verif/c05"
 	"verif/core"
 )
@@ -18,7 +21,22 @@ func Run(ctx *core.Ctx) {
 		"for unterminated constructs every line from the construct's first line to the end of the input is accepted (the repository's test pins the 'where it was detected' end)",
 		"a faulty file that is accepted without error, does not return or panics is not judged here (C05/C07)")
 	if ctx.ReplayPath != "" {
-		runParseReplay(ctx)
+		raw, err := os.ReadFile(ctx.ReplayPath)
+		if err != nil {
+			ctx.ToolError("cannot read replay: %v", err)
+			return
+		}
+		var h struct {
+			Replay struct {
+				Half string `json:"half"`
+			} `json:"replay"`
+		}
+		json.Unmarshal(raw, &h)
+		if h.Replay.Half == "render" {
+			runRenderReplay(ctx, raw)
+		} else {
+			runParseReplay(ctx)
+		}
 		return
 	}
 	// M1: the position calculus of SoyLexParse.tla (PosInInput) and its deviations
